@@ -188,6 +188,31 @@ func checkCtl(c *CtlCase) error {
 		if !orig.IsValid() || !bytes.Equal(orig.Bytes(), received) {
 			return fmt.Errorf("%s, algorithm %d: after its checksum was stripped the event as received reports valid=%v and no longer holds the bytes the master wrote", c.Kind, alg, orig.IsValid())
 		}
+		// strings are values: what Query / Rotate / Format returned must not change when the caller goes on
+		// to use its receive buffer for the next event (slices such as HeaderSizes may be windows of it)
+		if d.Format != nil {
+			d.Format.HeaderSizes = append([]byte(nil), d.Format.HeaderSizes...)
+		}
+		keep := func(s string) string { return string(append([]byte(nil), s...)) }
+		var texts, copies []string
+		if d.Format != nil {
+			texts = append(texts, d.Format.ServerVersion)
+		}
+		if d.Query != nil {
+			texts = append(texts, d.Query.Database, d.Query.SQL)
+		}
+		texts = append(texts, d.RotName)
+		for _, t := range texts {
+			copies = append(copies, keep(t))
+		}
+		for i := range raw {
+			raw[i] ^= 0x5a
+		}
+		for i := range texts {
+			if texts[i] != copies[i] {
+				return fmt.Errorf("%s, algorithm %d: a string returned for the event (%.60q) changed to %.60q when the caller reused its receive buffer", c.Kind, alg, copies[i], texts[i])
+			}
+		}
 		results = append(results, d)
 	}
 	// the three decodings agree (checksum on == off == undefined once the algorithm is applied)
